@@ -978,3 +978,11 @@ def dnf(conds, limit=128):
         new = [k + s for k in cases for s in sub_]
         cases = new if len(new) <= limit else [k + [c_] for k in cases]
     return cases
+
+
+def len_of(t):
+    """len(t) in the evaluator's normal form (distributed over gated phis)"""
+    a = t.single_atom() if isinstance(t, T.R) else None
+    if a is not None and a[0] == "ite":
+        return T.mk_ite(a[1], len_of(a[2]), len_of(a[3]))
+    return atom(("call", "len", (t,), ()))
